@@ -204,6 +204,8 @@ def run_real(path, n, freq, conv, sched, ckpt, workdir):
     with contextlib.redirect_stdout(io.StringIO()):
         o.run()
     events.append("close")
+    if state["silent"]:
+        problems.append("the run ended with an in-place update that was never notified")
     return events, problems, state["updates"]
 
 
@@ -242,6 +244,9 @@ def check(ctx: Ctx, quick: bool):
                 for pr in problems:
                     if pr.startswith("checkpoint"):
                         ctx.violation("C17:optimizer-loop:checkpoint-iteration", f"Optimizer._run: {pr}", {"config": [n, trials, freq, conv, sched, ckpt]})
+                    elif ctx.pid == "C11":
+                        # C11: in-place optimiser steps are followed by the change notification before anything is evaluated
+                        ctx.violation("C11:optimizer-loop:step-not-notified", f"Optimizer._run: {pr}", {"config": [n, trials, freq, conv, sched, ckpt]})
                     else:
                         ctx.note(f"MODEL-DRIFT bind:optimizer-loop {pr}")
                         ctx.add("model_drift")
